@@ -48,10 +48,10 @@ def Variant.toInt (v : Variant) : Int :=
       | some i => i
       | none =>
         match parseUsize? v.text with
-        | some n => Int.ofNat n - (if n > 9223372036854775807 then 18446744073709551616 else 0)   -- `usize as i64` wraps
+        | some n => if n > 9223372036854775807 then 9223372036854775807 else Int.ofNat n   -- saturates at i64::MAX (D79 fix)
         | none =>
           match parseFilesize v.text with
-          | some n => Int.ofNat n - (if n > 9223372036854775807 then 18446744073709551616 else 0)
+          | some n => if n > 9223372036854775807 then 9223372036854775807 else Int.ofNat n
           | none =>
             match parseF64? v.text with
             | some f => f.toI64
